@@ -190,12 +190,15 @@ def check_case(qt, mb, qb, feed, inp, dist, ratios, nontrivial, fraction=None):
           cause = ('nonfinite', f'{nm}: non-finite values', cls)
           break
         spread = float(np.max(fv) - np.min(fv))
-        if fv.size > 1 and step and spread > 16 * step and float(np.max(qv) - np.min(qv)) == 0.0:
+        lim = K_STEPS * step + (fraction or FRACTION) * max(mag, float(np.max(np.abs(fv)))) + 1e-6
+        # a constant quantized tensor is an error only when the float tensor's
+        # spread exceeds what the tolerance allows anyway (a ReLU output that is
+        # 0 except for values far below the upstream quantization noise is not)
+        if fv.size > 1 and step and spread > max(16 * step, 2 * lim) and float(np.max(qv) - np.min(qv)) == 0.0:
           cause = ('constant-output', f'{nm}: quantized tensor is constant ({float(qv.flat[0]):.4g}) while the '
                    f'float tensor spans {spread:.4g} ({spread / step:.0f} steps)', cls)
           break
         err = float(np.max(np.abs(qv - fv)))
-        lim = K_STEPS * step + (fraction or FRACTION) * max(mag, float(np.max(np.abs(fv)))) + 1e-6
         ratios.append(err / lim)
         if err > lim:
           cause = ('output-error', f'{nm}: max |dequantized - float| = {err:.4g} > {K_STEPS:g} steps '
